@@ -11,16 +11,27 @@ import (
 
 // C05: local and global timestamps are mutually consistent.
 
-func c05(rc *core.RunCtx) {
+func c05(rc *core.RunCtx) { c05Body(rc, "c05") }
+
+// c05Body: prop "c05" checks the cross-allocator history; prop "c03" runs the same world (members of one
+// dc-location contend for its Local TSO allocator leadership) under the C03 commit-level ownership oracles only.
+func c05Body(rc *core.RunCtx, prop string) {
 	s := rc.S
-	faults := rc.Mode == "faults"
+	faults := rc.Mode == "faults" || prop == "c03"
 	nDC := 1 + rc.Knob("dcs", 3)
+	if prop == "c03" && nDC == 3 {
+		nDC = 1 // two or three members of one dc-location must contend for the same allocator leadership
+	}
 	dcs := []string{"dc1", "dc2", "dc3"}[:nDC]
 	e := Setup(rc, Opts{MinNodes: 3, MaxNodes: 3, Faults: faults, LocalTSO: true, DCs: dcs})
 	e.trackMembers()
 	o := newTSOOracle(rc, e)
-	o.c05 = true
-	o.c01 = true
+	if prop == "c03" {
+		o.c03 = true
+	} else {
+		o.c05 = true
+		o.c01 = true
+	}
 	// a datacenter may join later: its member starts after the others
 	late := -1
 	if nDC > 1 && rc.Knob("late_join", 2) == 1 {
